@@ -953,6 +953,20 @@ def run(chk):
         scens.append(gen_nonlinear(chk.rng))
     recs, rc, err = run_impl(h, scens)
     if len([r for r in recs.values() if r.get("ended") or r.get("died")]) != len(scens):
+        # the batch stopped: the first case without an answer is analysed in a process of its own; when the analysis of that lattice
+        # crashes or hangs there as well, that lattice is the failing input ("the analysis completes without error for every lattice")
+        first = next((k for k in range(len(scens)) if not (recs.get(str(k), {}).get("ended") or recs.get(str(k), {}).get("died"))), None)
+        if first is not None:
+            inp1 = "case 0\n%s\nend\n" % scens[first].text()
+            rc1, out1, err1 = pv.run_harness(h, inp1, timeout=120)
+            r1 = parse_records(out1, True).get("0", {})
+            if rc1 != 0 or not (r1.get("ended") or r1.get("died")) or r1.get("died"):
+                small = scens[first]
+                chk.violation("analysis-crashes: " + small.canon(),
+                              "the symmetry analysis / block construction of this lattice %s in a process of its own (exit code %s): %s"
+                              % ("does not finish within 120 s" if rc1 == 124 else "crashes", rc1, (pv.sanitizer_digest(err1) or err1[-300:]).strip()[-300:]),
+                              {"harness": "h_c07", "scenario": small.text()})
+                return
         chk.tie_broken("h_c07", "harness answered %d of %d cases (rc=%d) %s" % (len(recs), len(scens), rc, err[-300:]))
         return
     mods, rc2, err2 = run_model(drv, scens, recs, fixed_sz, shiftfix)
